@@ -146,6 +146,7 @@ func (c C20) Run(t *tape.Tape, opt core.RunOpt) (res core.Result) {
 			sb.FailFrom = 1 + t.Draw(2)
 			sb.Dropped = t.Bool(1, 2)
 			sb.TimeoutErr = t.Bool(1, 3)
+			sb.EmptyGroupErr = !sb.TimeoutErr && t.Bool(1, 4)
 		}
 		sb.ByValue = t.Bool(1, 4)
 		w.AddSub(sb)
@@ -537,7 +538,17 @@ func c20Analyse(res *core.Result, w *workload.SubWorld, s *sched.Sched, pre []in
 			if cl.Cnt != len(cl.Sends) || matched != len(cl.Sends) {
 				res.Violate("C20", "publish_count_wrong", fmt.Sprintf("%s reported %d, matched %d subscribers, delivered %d", cl.Op, cl.Cnt, matched, len(cl.Sends)), nil)
 			}
-			if cl.Err != (len(failed) > 0 || resolveErrs > 0) {
+			// (a failed delivery whose error is a group without members has nothing
+			// to report: either outcome is taken for it)
+			spoken, mute := 0, 0
+			for sid := range failed {
+				if w.Subs[sid].EmptyGroupErr {
+					mute++
+				} else {
+					spoken++
+				}
+			}
+			if cl.Err != (spoken > 0 || resolveErrs > 0) && !(mute > 0 && spoken == 0 && resolveErrs == 0) {
 				res.Violate("C20", "publish_error_mismatch", fmt.Sprintf("%s: error=%v but %d deliveries failed and %d selections hit a field that does not resolve", cl.Op, cl.Err, len(failed), resolveErrs), nil)
 			}
 			// I4: a subscriber registered before the publish started and not removed
